@@ -59,8 +59,8 @@ func (p jSvcPort) k8s() v1.ServicePort {
 func (s jSlice) k8s() *discoveryV1.EndpointSlice {
 	labels := map[string]string{
 		// decoys: labels that look like the service-name label but are not
-		"app":                                s.Obj,
-		"kubernetes.io/service-name-alias":   "svc",
+		"app":                                    s.Obj,
+		"kubernetes.io/service-name-alias":       "svc",
 		"endpointslice.kubernetes.io/managed-by": "endpointslice-controller.k8s.io",
 	}
 	if s.Label != nil {
@@ -126,13 +126,14 @@ func genOptBool(r *rng.R, pNil, pTrue int) *bool {
 }
 
 // genSlice generates one EndpointSlice around the target service ns/name.
-func genSlice(r *rng.R, i int, ns, name string, hostile bool) jSlice {
+func genSlice(r *rng.R, i int, ns, name string, hostile bool, prefer []string) jSlice {
 	s := jSlice{Obj: fmt.Sprintf("slice-%d", i), Ns: ns}
-	if r.Chance(15, 100) {
+	friendly := len(prefer) > 0 && !hostile
+	if r.Chance(15, 100) && !(friendly && r.Chance(60, 100)) {
 		s.Ns = rng.Pick(r, nsPool)
 	}
 	switch x := r.Intn(100); {
-	case x < 65:
+	case x < 65 || (friendly && x < 85):
 		s.Label = ptr(name)
 	case x < 82:
 		s.Label = ptr(rng.Pick(r, svcPool))
@@ -157,6 +158,19 @@ func genSlice(r *rng.R, i int, ns, name string, hostile bool) jSlice {
 	nPorts := r.Intn(4)
 	names := append([]string{}, portNames...)
 	rng.Shuffle(r, names)
+	if len(prefer) > 0 && r.Chance(70, 100) {
+		// make the slice likely to expose a referenced port
+		want := rng.Pick(r, prefer)
+		for k, nm := range names {
+			if nm == want {
+				j := r.Intn(2)
+				names[k], names[j] = names[j], names[k]
+			}
+		}
+		if nPorts == 0 {
+			nPorts = r.Range(1, 3)
+		}
+	}
 	s.Ports = []jPort{}
 	for k := 0; k < nPorts; k++ {
 		var p jPort
@@ -213,11 +227,11 @@ func genSvcPort(r *rng.R, allowZero bool) jSvcPort {
 	return p
 }
 
-func genWorld(r *rng.R, ns, name string, maxSlices int, hostile bool) []jSlice {
+func genWorld(r *rng.R, ns, name string, maxSlices int, hostile bool, prefer []string) []jSlice {
 	n := r.Intn(maxSlices + 1)
 	out := make([]jSlice, 0, n)
 	for i := 0; i < n; i++ {
-		out = append(out, genSlice(r, i, ns, name, hostile))
+		out = append(out, genSlice(r, i, ns, name, hostile, prefer))
 	}
 	return out
 }
